@@ -276,6 +276,72 @@ func RunC08(r *core.Run) {
 		_ = body
 		w.Nontrivial(core.HashBytes(line))
 	})
+	// D2: every single-byte substitution of a few base lines, judged by a reference grammar
+	bases := []string{"SIP/2.0 200 OK", "sip/2.0 404 Not Found", "INVITE sip:a@b SIP/2.0", "ACK x SIP/2.0", "Sip/2.0 000 "}
+	var boffs []int64
+	var btot int64
+	for _, bl := range bases {
+		boffs = append(boffs, btot)
+		btot += int64(len(bl)) * 256 * 3
+	}
+	boffs = append(boffs, btot)
+	st = r.Stage("single-byte-substitutions", btot, func(w *core.Worker, idx int64) {
+		bi := 0
+		for idx >= boffs[bi+1] {
+			bi++
+		}
+		x := idx - boffs[bi]
+		eol := eols[x%3]
+		x /= 3
+		v := byte(x % 256)
+		p := int(x / 256)
+		line := []byte(bases[bi])
+		line[p] = v
+		in := append(append(append([]byte(nil), line...), eol...), flPad...)
+		want := ref.FirstLine(in)
+		for mode := 0; mode < 2; mode++ {
+			var fl sipsp.PFLine
+			var n int
+			var e sipsp.ErrorHdr
+			var pan string
+			if mode == 0 {
+				fl, n, e, pan = parseFL(in)
+			} else {
+				fl, n, e, pan = parseFLChunked(in)
+			}
+			w.Eval(1)
+			if pan != "" {
+				return
+			}
+			bad := ""
+			switch want.Kind {
+			case 0:
+				if e == sipsp.ErrHdrOk {
+					bad = "accepted although the grammar rejects it"
+				}
+			case 1:
+				if e != sipsp.ErrHdrOk || !fl.Request() || n != want.End || !bytes.Equal(fl.Method.Get(in), want.Method) || !bytes.Equal(fl.URI.Get(in), want.URI) ||
+					!bytes.Equal(fl.Version.Get(in), want.Version) || int(fl.MethodNo) != ref.MethodNo(want.Method) {
+					bad = fmt.Sprintf("by the grammar it is the request %q %q %q ending at %d", want.Method, want.URI, want.Version, want.End)
+				}
+			case 2:
+				code := int(want.Code[0]-'0')*100 + int(want.Code[1]-'0')*10 + int(want.Code[2]-'0')
+				if e != sipsp.ErrHdrOk || fl.Request() || n != want.End || int(fl.Status) != code || !bytes.Equal(fl.Reason.Get(in), want.Reason) || !bytes.Equal(fl.Version.Get(in), want.Version) {
+					bad = fmt.Sprintf("by the grammar it is a reply with status %s, reason %q ending at %d", want.Code, want.Reason, want.End)
+				}
+			}
+			if bad != "" {
+				w.Fail("substitution", func() *core.Violation {
+					return core.V(fmt.Sprintf("first line %q (byte %d of %q replaced by %#02x, delivered byte by byte: %v): %s; got verdict %s offs %d request=%v tokens %q %q %q status %d reason %q",
+						in[:len(line)+len(eol)], p, bases[bi], v, mode == 1, bad, errName(e), n, fl.Request(), fl.Method.Get(in), fl.URI.Get(in), fl.Version.Get(in), fl.Status, fl.Reason.Get(in)), in, nil)
+				})
+				return
+			}
+		}
+		w.NontrivialEnum()
+	})
+	st.Exhaustive = true
+	st.Space = fmt.Sprintf("every byte value at every position of each of %q, x 3 line ends, judged by an independent first-line grammar (ref.FirstLine), delivered whole and byte by byte", bases)
 	// E: near misses
 	type nm struct{ line, why string }
 	var misses []nm
